@@ -179,6 +179,17 @@ var properties = map[string]*Property{
 			"explicit breakpoints (Comp.breakpoint), Interp.debug, the debugger's own REPL",
 		},
 	},
+	"C20": {
+		ID:    "C20",
+		Title: "Macro expansion rewrites exactly the macro calls and leaves other code unchanged",
+		Units: []Unit{
+			{Kind: "funcs", Pkg: "base", Funcs: []string{"unwrapTrivialAst2"}},
+		},
+		NotCovered: []string{
+			"macro expansion itself: the code walk with its quasiquote depth (Comp.macroExpandCodewalk), macro call detection and argument consumption (MacroExpand1, extractMacroCall), repetition until no macro call remains, quote / quasiquote: recursion over syntax trees with calls of interpreted macros",
+			"a one-statement block holding `x := ...` (the operator is read through Ast.Op of the child: proved only for declaration statements); SimplifyNodeForQuote (the ast.Node twin of this function)",
+		},
+	},
 	"C22": {
 		ID:    "C22",
 		Title: "The uniform syntax-tree wrapper round-trips every node losslessly",
